@@ -832,9 +832,14 @@ def oracle(ctx):
     # D39: the two witness histories of C10_deferred_is_justified_refuted_without_repair (sequential: needs the
     # trigger step_node_undefer_reattached; race: needs the flag computed in the outcome transaction)
     for race in (False, True):
-        r = run(D39.replay_d39(race), timeout=120)
-        ctx.case(("replay", "d39", race), True)
         name = "replay:D39:" + ("race" if race else "sequential")
+        try:
+            r = run(D39.replay_d39(race), timeout=120)
+        except Exception as exc:  # noqa: BLE001 - e.g. the translator no longer recognises executor.py
+            fail("replay:d39:witness-not-reproduced", name,
+                 f"the D39 history could not be replayed: {type(exc).__name__}: {exc}", {"replay": name, "error": repr(exc)})
+            continue
+        ctx.case(("replay", "d39", race), True)
         ctx.stats["replay_d39_" + ("race" if race else "sequential")] = {
             "stuck": r["stuck"], "user": r["states"].get("user"), "validated": r["validated"]}
         if not (r["build1_terminated"] and r["build1_all_succeeded"] and r["validated"] and r["build2_terminated"]):
